@@ -89,8 +89,22 @@ def cases(ctx, n):
             out.append((ctx.rng.choice(FRAG_RULES), t[pos:]))
     return out
 
+def keyword_in_block_cases():
+    """every hierarchical keyword (and CROSSHEADING) at the start of a content line inside every kind of block: the line is
+    text there, so no block node may get a hierarchical child"""
+    p = impl.parser()
+    out = []
+    ctxs = ['ITEMS\n  ITEM (a)\n    %s\n  ITEM (b)\n    x\n', 'BLOCKLIST\n  intro\n  ITEM (a) - h\n    %s\n', 'BULLETS\n  * %s\n  * y\n',
+            'TABLE\n  TR\n    TC\n      %s\n', 'ITEMS\n  ITEM (a)\n    ITEMS\n      ITEM (i)\n        %s\n', 'BLOCKS\n  %s\n',
+            'BULLETS\n  %s\n']
+    for kw in gen.HIER + ['CROSSHEADING']:
+        for c in ctxs:
+            for line in (kw + ' A of the form', kw + ' 1. - Heading', kw):
+                out.append(('act', p.pre_parse('SEC 1.\n' + '\n'.join('  ' + l for l in (c % line).split('\n') if l) + '\n')))
+    return out
+
 def correspondence(ctx):
-    cs = cases(ctx, ctx.n(700, 40000))
+    cs = cases(ctx, ctx.n(700, 40000)) + keyword_in_block_cases()
     ctx._cases = cs
     stages.stage_dict(ctx, cs)
 
